@@ -10,6 +10,7 @@ import (
 	"hash/crc32"
 	"math"
 	"math/rand"
+	"reflect"
 	"sort"
 	"strings"
 	"time"
@@ -267,7 +268,53 @@ func extremes(r *rand.Rand, m protoreflect.Message, depth int) {
 	}
 }
 
+// sweepTexts calls String() and Error() on every value reachable from a parsed result that has one (enum names,
+// warning texts): they are accessors like any other. Found by reflection so that new types are swept as well.
+func sweepTexts(root any) {
+	seen := map[uintptr]bool{}
+	var walk func(v reflect.Value, depth int)
+	walk = func(v reflect.Value, depth int) {
+		if !v.IsValid() || depth > 12 {
+			return
+		}
+		if v.CanInterface() && !(v.Kind() == reflect.Ptr && v.IsNil()) && !(v.Kind() == reflect.Interface && v.IsNil()) {
+			switch x := v.Interface().(type) {
+			case time.Time, *time.Time, *time.Location, time.Duration:
+				return
+			case error:
+				_ = x.Error()
+			case fmt.Stringer:
+				_ = x.String()
+			}
+		}
+		switch v.Kind() {
+		case reflect.Ptr:
+			if v.IsNil() || seen[v.Pointer()] {
+				return
+			}
+			seen[v.Pointer()] = true
+			walk(v.Elem(), depth+1)
+		case reflect.Interface:
+			if !v.IsNil() {
+				walk(v.Elem(), depth+1)
+			}
+		case reflect.Struct:
+			for i := 0; i < v.NumField(); i++ {
+				if v.Type().Field(i).IsExported() {
+					walk(v.Field(i), depth+1)
+				}
+			}
+		case reflect.Slice, reflect.Array:
+			for i := 0; i < v.Len(); i++ {
+				walk(v.Index(i), depth+1)
+			}
+		}
+	}
+	walk(reflect.ValueOf(root), 0)
+}
+
 func sweepRealtime(res *gtfs.Realtime) {
+	sweepTexts(res)
 	for i := range res.Trips {
 		t := &res.Trips[i]
 		t.Hash(sha256.New())
@@ -537,6 +584,7 @@ func Run(id string, e Entry, n int, seed int64) Record {
 					for k := range s.Stops {
 						_ = s.Stops[k].Root()
 					}
+					sweepTexts(s)
 				}
 			})
 			note(out, hexOf(keep))
